@@ -41,12 +41,91 @@ fn main() {
             std::process::exit(code);
         }
         "check" => {
+            // parent: split the work over shard processes (isolation: a hang, abort or crash in
+            // one shard cannot take the other results with it)
             let id = args[2].clone();
-            let tier = std::env::var("VERIF_TIER").ok().filter(|s| !s.is_empty()).unwrap_or_else(|| args.get(3).cloned().unwrap_or("quick".into()));
-            let tier = if args.len() > 3 { args[3].clone() } else { tier };
+            let tier = if args.len() > 3 { args[3].clone() } else { std::env::var("VERIF_TIER").ok().filter(|s| !s.is_empty()).unwrap_or("quick".into()) };
             let seed: u64 = std::env::var("VERIF_SEED").ok().and_then(|s| s.parse().ok()).unwrap_or(0);
             let verif_dir = std::env::var("VERIF_DIR").unwrap_or("/verif".into());
             let diag = props::diag::probe();
+            let t0 = Instant::now();
+            let nthreads = pool::threads();
+            let nshards = std::env::var("VERIF_SHARDS").ok().and_then(|s| s.parse().ok()).unwrap_or(nthreads * 3);
+            let exe = std::env::current_exe().unwrap();
+            let tmp = format!("{}/harness/target/shards-{}-{}", verif_dir, id, std::process::id());
+            let _ = std::fs::create_dir_all(&tmp);
+            let diag_json = serde_json::to_string(&diag).unwrap();
+            let next = std::sync::Mutex::new(0usize);
+            let results: std::sync::Mutex<Vec<(usize, Result<String, String>)>> = std::sync::Mutex::new(vec![]);
+            std::thread::scope(|sc| {
+                for _ in 0..nthreads.min(nshards) {
+                    sc.spawn(|| loop {
+                        let i = {
+                            let mut n = next.lock().unwrap();
+                            if *n >= nshards {
+                                break;
+                            }
+                            *n += 1;
+                            *n - 1
+                        };
+                        let outfile = format!("{}/{}.json", tmp, i);
+                        let st = std::process::Command::new(&exe)
+                            .args(["shard", &id, &tier, &i.to_string(), &nshards.to_string(), &outfile])
+                            .env("DSIV_DIAG", &diag_json)
+                            .env("VERIF_THREADS", "1")
+                            .env("VERIF_SEED", seed.to_string())
+                            .stderr(std::process::Stdio::null())
+                            .output();
+                        let r = match st {
+                            Ok(o) => match std::fs::read_to_string(&outfile) {
+                                Ok(s) if o.status.success() => Ok(s),
+                                _ => Err(format!("shard {} died ({:?}) {}", i, o.status, String::from_utf8_lossy(&o.stdout).chars().take(2000).collect::<String>())),
+                            },
+                            Err(e) => Err(format!("cannot spawn shard {}: {}", i, e)),
+                        };
+                        results.lock().unwrap().push((i, r));
+                    });
+                }
+            });
+            let mut results = results.into_inner().unwrap();
+            results.sort_by_key(|x| x.0);
+            let mut total = report::Outcome::new();
+            let mut meta: Option<report::CheckMeta> = None;
+            for (_, r) in results {
+                match r {
+                    Ok(s) => {
+                        let v: serde_json::Value = serde_json::from_str(&s).expect("shard output");
+                        if meta.is_none() && !v["meta"].is_null() {
+                            meta = serde_json::from_value(v["meta"].clone()).ok();
+                        }
+                        let o: report::Outcome = serde_json::from_value(v["outcome"].clone()).expect("shard outcome");
+                        total.merge(o);
+                    }
+                    Err(e) => {
+                        println!("MACHINERY: {}", e);
+                        let _ = std::fs::remove_dir_all(&tmp);
+                        std::process::exit(3);
+                    }
+                }
+            }
+            let _ = std::fs::remove_dir_all(&tmp);
+            let meta = meta.expect("no shard produced the check's metadata");
+            let code = report::finish(&meta, &tier, seed, total, t0.elapsed().as_secs_f64(), &verif_dir);
+            std::process::exit(code);
+        }
+        "shard" => {
+            let id = args[2].clone();
+            let tier = args[3].clone();
+            let i: usize = args[4].parse().unwrap();
+            let n: usize = args[5].parse().unwrap();
+            let outfile = args[6].clone();
+            let seed: u64 = std::env::var("VERIF_SEED").ok().and_then(|s| s.parse().ok()).unwrap_or(0);
+            let verif_dir = std::env::var("VERIF_DIR").unwrap_or("/verif".into());
+            let diag = match std::env::var("DSIV_DIAG") {
+                Ok(s) => serde_json::from_str(&s).unwrap(),
+                Err(_) => props::diag::probe(),
+            };
+            *pool::SHARD.lock().unwrap() = Some((i, n));
             // panics inside the library are observations (caught); panics in the harness itself are
             // machinery failures and must be visible
             std::panic::set_hook(Box::new(|info| {
@@ -59,21 +138,43 @@ fn main() {
             }));
             util::silence_stderr();
             let ctx = Ctx { thorough: tier == "thorough", tier, seed, verif_dir, diag };
-            let vd = ctx.verif_dir.clone();
             let idc = id.clone();
-            watchdog::start(30, move |desc| {
-                // a transition did not return: write a replay and report it
-                let _ = std::fs::create_dir_all(format!("{}/replays", vd));
-                let path = format!("{}/replays/{}-hang.json", vd, idc);
-                let _ = std::fs::write(&path, &desc);
-                println!("VIOLATION property={} replay={}", idc, path);
-                println!("  an operation did not return within 30 s (non-termination); see replay for the state");
-                std::process::exit(1);
+            let of = outfile.clone();
+            watchdog::start(30, move |wctx, desc, aux| {
+                // a transition did not return: report it as this shard's outcome (the rest of the shard is lost)
+                let c: serde_json::Value = serde_json::from_str(&wctx).unwrap_or(serde_json::json!({}));
+                let mut replay = c.get("base").cloned().unwrap_or(serde_json::json!({"kind": "unknown", "context": wctx}));
+                let mut ops: Vec<serde_json::Value> = serde_json::from_str(&desc).unwrap_or_default();
+                let mut opname = "unknown".to_string();
+                if let Some(op) = c.get("alphabet").and_then(|a| a.get(aux as usize)) {
+                    opname = op.to_string();
+                    ops.push(op.clone());
+                }
+                if replay.is_object() {
+                    replay["ops"] = serde_json::json!(ops);
+                    replay["hang"] = serde_json::json!(true);
+                }
+                let config = format!("{}/{}/{}", replay["e"].as_str().unwrap_or(""), replay["rkind"].as_str().unwrap_or(""), replay["backend"].as_str().unwrap_or(""));
+                let v = report::Violation {
+                    property: idc.clone(),
+                    system: "watchdog".into(),
+                    config,
+                    op_class: "hang".into(),
+                    symptom: "hang".into(),
+                    detail: format!("operation {} issued after {} earlier operations did not return within 30 s (non-termination)", opname, ops.len().saturating_sub(1)),
+                    replay,
+                };
+                let mut o = report::Outcome::new();
+                o.cov.caps_hit.push("a shard was abandoned after a non-terminating operation".into());
+                o.violations.push(v);
+                let doc = serde_json::json!({"meta": null, "outcome": o});
+                let _ = std::fs::write(&of, serde_json::to_string(&doc).unwrap());
+                std::process::exit(0);
             });
-            let t0 = Instant::now();
             let (meta, out) = props::run(&id, &ctx);
-            let code = report::finish(&meta, &ctx.tier, ctx.seed, out, t0.elapsed().as_secs_f64(), &ctx.verif_dir);
-            std::process::exit(code);
+            let doc = serde_json::json!({"meta": meta, "outcome": out});
+            std::fs::write(&outfile, serde_json::to_string(&doc).unwrap()).expect("write shard output");
+            std::process::exit(0);
         }
         _ => {
             eprintln!("unknown command");
